@@ -150,7 +150,11 @@ func expensiveNext(s cron.Schedule) bool {
 
 func genCron(r *runner) {
 	opts := optionSets()
-	zones := []string{"", "UTC", "America/Havana", "Australia/Lord_Howe", "Europe/London", "Asia/Kolkata", "Pacific/Apia", "America/Sao_Paulo"}
+	// zones with every kind of transition: midnight DST, 30-minute DST, date-line jumps, double DST, sub-minute LMT offsets
+	zones := []string{"", "UTC", "America/Havana", "Australia/Lord_Howe", "Europe/London", "Asia/Kolkata", "Pacific/Apia", "America/Sao_Paulo",
+		"America/Santiago", "Africa/Cairo", "Asia/Beirut", "Pacific/Chatham", "Asia/Kathmandu", "Antarctica/Troll", "Africa/Casablanca",
+		"Pacific/Kiritimati", "America/St_Johns", "Asia/Tehran", "Europe/Dublin", "America/Caracas", "Africa/Monrovia", "Asia/Pyongyang",
+		"Pacific/Kwajalein", "America/Asuncion", "Atlantic/Azores", "Asia/Gaza", "Australia/Eucla", "Europe/Amsterdam", "Local"}
 	// DST edges, leap day, epoch, year 1 and year 9999
 	instants := []int64{0, 1, -1, 1711846799, 1698541200, 951782400, 4102444800, -2208988800, 253402300799, -62135596800, 1710053999, 1730613599}
 	expensive := 0
